@@ -39,6 +39,7 @@ type RevPlan struct {
 	Shuffle uint64 `json:"shuffle,omitempty"`
 	LenInStm bool  `json:"len_in_stm,omitempty"`
 	NoHead   bool  `json:"no_head,omitempty"` // the update does not rewrite object 0's entry when it frees objects
+	Forward    bool     `json:"forward,omitempty"` // first revision, classic table: a first section whose /Prev points forward (linearized layout)
 	BulkRanges [][2]int `json:"bulk_ranges,omitempty"` // (offset, length) runs of the bulk objects rewritten by this update
 }
 
@@ -202,6 +203,7 @@ func (p *Prop) Generate(base uint64, index int, env *sim.Env) *sim.Case {
 		if r.Pct(50) {
 			rp.Shuffle = r.Uint64() | 1
 		}
+		rp.Forward = rev == 0 && !isStream && r.Pct(15)
 		if rp.Stream && rev > 0 && r.Pct(20) {
 			rp.Repack = true
 		}
@@ -432,7 +434,7 @@ func buildHooked(sp *Spec, offsetHook func(rev, num, off int) int) (*pdfw.Built,
 			inStm[op.Num] = op.InStm
 		}
 		rs := pdfw.RevSpec{Set: set, Free: free, XRefStream: rp.Stream, InObjStm: inStm, ObjStms: rp.Conts, ObjStmFlate: rp.StmZ,
-			XRefFlate: rp.XRefZ, Shuffle: rp.Shuffle, NoHead: rp.NoHead, TableAfterStream: true}
+			XRefFlate: rp.XRefZ, Shuffle: rp.Shuffle, NoHead: rp.NoHead, TableAfterStream: true, ForwardPrev: rp.Forward}
 		if rp.Repack {
 			rs.RepackOld = w.OldestContainer()
 		}
@@ -965,6 +967,7 @@ func features(sp *Spec) []string {
 			add(!op.Del && op.Kind >= 6, "stream-object")
 		}
 	}
+	add(len(sp.Revs) > 0 && sp.Revs[0].Forward, "xref=forward-prev")
 	add(sp.Bulk > 0, "bulk")
 	add(sp.Bulk > 0 && sp.EOL == 1, "bulk+crlf")
 	add(anyS, "xref=stream")
